@@ -98,6 +98,11 @@ def replay_and_crosscheck(rep, prop, res, obs):
             pred = unjson(w.get("predicted"))
             ob.witness["real_result"] = repr(real)
             confirm = getattr(c, "confirm", None)
+            if w.get("approximate") and confirm is None:
+                # the path used an over-approximating model (e.g. rounding of a narrow float type): the engine's result is not a prediction, so the
+                # counter-model cannot be confirmed by comparison; the failed obligation stands, without a replayed input
+                ob.detail = f"counter-model {w} (over-approximating arithmetic model on this path: not replayable by comparison) | " + ob.detail
+                continue
             if (confirm(unjson(w), real) if confirm is not None else same(pred, real)):
                 ob.replayed = True
                 ob.detail = f"counter-model replayed on the real function: input {w}, real result {real!r} (= predicted) | " + ob.detail
